@@ -1009,7 +1009,7 @@ def run(ctx):
     ciq_items = [(i, rule) for i, r in enumerate(results) for rule in (r.get("ciq_rules") or [])]
     CSH = 40
     for s in range(0, len(ciq_items), CSH):
-        shards.append(("c18_ciq_%d" % (s // CSH), M.ciq_shard_src([M.coq_ciq_case(rule, 1e-9) for _, rule in ciq_items[s:s + CSH]])))
+        shards.append(("c18_ciq_%d" % (s // CSH), M.ciq_shard_src([M.coq_ciq_case(rule, 1e-6) for _, rule in ciq_items[s:s + CSH]])))
     n_ciq_end = len(shards)
     meth_rows = probe_method_table()
     shards.append(("c18_meth", meth_shard_src(meth_rows)))
